@@ -97,10 +97,10 @@ class Ctx:
             eng.max_block_visits = None
         hv.uninstall()
         self.A.uninstall()
-        names = {d.get("name"): i for i, d in enumerate(self.cg["locals"]) if d.get("name")}
         sums = {}
         problems = []
         per_loop = {}
+        loop_names = {}
         for st in finals:
             if st.end != "loop-back":
                 continue
@@ -108,7 +108,13 @@ class Ctx:
             if not keys:
                 continue
             key = keys[-1]
-            fid = st.frames[0].fid
+            # the loop's own frame: compute_gregorian itself, or a private helper the correction was moved into
+            lfr = [f_ for f_ in st.frames if f_.fn["key"] == key[0]]
+            if not lfr:
+                problems.append("loop bb%d: frame not found" % key[1])
+                continue
+            fid = lfr[-1].fid
+            names = {d.get("name"): i for i, d in enumerate(lfr[-1].fn["locals"]) if d.get("name")}
             info = hv.loops_seen.get(key, {})
             calls = recs(st, "leap")
             if len(calls) != 1:
@@ -137,6 +143,7 @@ class Ctx:
                 else:
                     effect[nm] = "?"
             per_loop.setdefault(key, []).append((t_ok, effect))
+            loop_names[key] = names
         for key, lst in per_loop.items():
             accs = set()
             ok = True
@@ -155,7 +162,7 @@ class Ctx:
             chk.ob(RULE, INST, "loop@bb%d-body:acc%s=1-iff-is_leap_year(y),nothing-else-written" % (key[1], "+" if delta == 1 else "-"), ok,
                    "one symbolic iteration (inductive step of the closed form)", detail=None if ok else lst)
             if ok:
-                sums[key] = (names[list(accs)[0]], delta)
+                sums[key] = (loop_names[key][list(accs)[0]], delta)
         for p in problems:
             chk.ob(RULE, INST, "loop-body-analysable", False, detail=p)
         chk.floor(RULE, "leap-day loops summarised", len(sums), 2)
@@ -214,7 +221,9 @@ def run_cell(job):
     ndec = {"n": 0}
 
     def h_dec(e, st, c, a, dest_tid, t):
-        if st.frames[-1].fn["key"] != cx.cg["key"]:
+        d0_ = e.deref(st, a[0]) if isinstance(a[0], Ref) else a[0]
+        T0_ = D.total(d0_)
+        if (T0_ is not None and T0_.is_const()) or any((f_.fn.get("name") or "") == "gregorian_epoch_offset" for f_ in st.frames):
             return NotImplemented  # e.g. gregorian_epoch_offset -> subdivision -> decompose of a constant: evaluated for real
         n = len(recs(st, "decompose"))
         v = e.fresh(dest_tid, ("decompose", n, tuple(e.term(x) for x in a)))
@@ -259,7 +268,7 @@ def run_cell(job):
 
     def h_next(e, st, c, a, dest_tid, t):
         fr = st.frames[-1]
-        if fr.fn["key"] != cx.cg["key"] or not cx.hv.is_driver(fr.fn, fr.bb, t):
+        if not cx.hv.is_driver(fr.fn, fr.bb, t):
             return NotImplemented
         key = (fr.fn["key"], fr.bb)
         if key not in cx.summaries:
